@@ -244,6 +244,10 @@ pub fn expected_history(spec: &TaskSpec) -> Expected {
                 let mut n = 0;
                 for (k, v) in items {
                     n += 1;
+                    if &k[..] == crate::front::PANIC_KEY {
+                        r = Expect::CallerPanic;
+                        break;
+                    }
                     let e = one(&mut m, k, *v, false);
                     if e != Expect::Ok {
                         r = e;
@@ -267,6 +271,7 @@ pub fn expected_history(spec: &TaskSpec) -> Expected {
 pub fn expect_matches(e: &Expect, r: &Res) -> bool {
     match (e, r) {
         (Expect::Ok, Res::Ok) => true,
+        (Expect::CallerPanic, Res::Panic(m)) => m.contains(crate::front::CALLER_PANIC),
         (Expect::Dup { got }, Res::Dup(g)) => got == g,
         (Expect::Ooo { prev, got }, Res::Ooo(p, g)) => prev == p && got == g,
         _ => false,
@@ -277,6 +282,7 @@ pub fn show_expect(e: &Expect) -> String {
     use crate::front::hex;
     match e {
         Expect::Ok => "Ok".into(),
+        Expect::CallerPanic => "the caller's own panic (unwinding out of the call)".into(),
         Expect::Dup { got } => format!("Err(DuplicateKey{{got:{}}})", hex(got)),
         Expect::Ooo { prev, got } => format!(
             "Err(OutOfOrder{{previous:{},got:{}}})",
@@ -297,9 +303,25 @@ pub struct ReadBack {
 }
 
 pub fn read_back(bytes: &[u8]) -> Result<ReadBack, String> {
-    use fst::Streamer;
+    use fst::{IntoStreamer, Streamer};
     let r = catch_unwind(AssertUnwindSafe(|| -> Result<ReadBack, String> {
         let f = fst::raw::Fst::new(bytes).map_err(|e| format!("open: {:?}", e))?;
+        // Readers that are dropped half-way first (a stream after two items,
+        // a lower-bounded range after one, an early-exit set relation): what
+        // a later, complete enumeration yields must not depend on them.
+        {
+            let mut s0 = f.stream();
+            let _ = s0.next();
+            let _ = s0.next();
+            drop(s0);
+            let mut r0 = f.range().ge(b"a").into_stream();
+            let _ = r0.next();
+            drop(r0);
+            if let Ok(set) = fst::Set::new(bytes) {
+                let _ = set.is_disjoint(&set);
+                let _ = set.is_subset(&set);
+            }
+        }
         let mut items = Vec::new();
         let mut s = f.stream();
         while let Some((k, v)) = s.next() {
